@@ -135,7 +135,9 @@ def run(spec, ctx):
             if spec.get("deep") and i % 10 == 0:
                 doc = gen.deep_doc(r, r.randint(20, 60))
             else:
-                doc = gen.gen_doc(r, profile=spec["profile"], hostile=r.choice([0.1, 0.5, 0.9]), max_depth=r.randint(2, 5), fan=r.randint(2, 5))
+                doc = gen.gen_doc(r, profile=spec["profile"], hostile=r.choice([0.1, 0.5, 0.9]), max_depth=r.randint(2, 5), fan=r.randint(2, 5), alias=0.25 if i % 5 == 4 else 0.0)
+                if i % 5 == 4:
+                    ctx.count("documents_with_shared_containers")
             for _q in range(3):
                 ast = gen.gen_std_query(r, doc, max_segs=4, desc=0.3)
                 seen = set()
